@@ -4,8 +4,7 @@
 use crate::observe::{Observer, Strictness};
 use crate::ops::{Op, Query, RefreshExpect, apply_to_model};
 use crate::refgraph::Reference;
-use crate::world::{Disk, Model, SLOT_A, SLOT_E, SLOTS, Side};
-use crate::content::{Class, Content};
+use crate::world::{Disk, Model, SLOTS, Side};
 use std::collections::BTreeMap;
 use std::panic::{AssertUnwindSafe, catch_unwind};
 use std::path::Path;
@@ -157,10 +156,9 @@ impl Executor<'_> {
         let observe_s = Observer { side: &s_side, strictness };
         let observe_f = Observer { side: &f_side, strictness };
         let mut model = Model::new(self.config.symlinks);
-        if self.config.symlinks {
-            for slot in [SLOT_A, SLOT_E] {
-                let content = Content::plain("int1", "1", Class::Closed);
-                model.slots[slot].disk = Disk::File(content);
+        model.pin();
+        for slot in 0..SLOTS.len() {
+            if model.pinned(slot) {
                 s_side.put(slot, &model.slots[slot].disk);
             }
         }
